@@ -539,6 +539,192 @@ example : (run (cfgAll false) f7Rels f7Ops).events =
 example : (run (cfgAll true) f7Rels f7Ops).events =
     [.complete 0 1 0 [(⟨.way, 10⟩, .found ⟨.way, 10, 7⟩)], .query .way 10 .absent] := by decide +kernel
 
+/-! ### Ids: only EQUALITY matters (the id alphabet) -/
+
+/-- `find` / `add` depend on id EQUALITY only — abstract model.  For ids `a ≠ b` (however far apart, congruent modulo any
+    power of two, equal in magnitude, …): `remove(a, …)` — the release of `a` when a relation needing it is completed —
+    never changes what `find(b)` returns: the same entries in the same order with the same handles and marks, in every
+    members database (`k'` may be the database `a` lives in or another one). -/
+theorem removal_of_other_id_irrelevant_abs (c : Cfg) (s : State) (k k' : Kind) (a b relid : Int) (hs : Sorted3 s)
+    (hab : a ≠ b) :
+    (splitRange ((dbRemove c s k a relid).getDb k') b).2.1 = (splitRange (s.getDb k') b).2.1 :=
+  dbRemove_other_range c s k k' a b relid hs hab
+
+/-- … and on the vector machine (what the refinement layer — any index, filter or cache in front of the sorted vector —
+    has to preserve): after `remove(a, …)` the binary search for any other id `b` returns the SAME index range, and the
+    entries in that range are untouched.  In particular an object `b` that has not arrived yet is still found by
+    `add()` — it can neither be reported as "not in any relation" nor can its relations stay incomplete — after any
+    number of other ids were released. -/
+theorem removal_of_other_id_irrelevant (c : Cfg) (v : VState) (k k' : Kind) (a b relid : Int) (hs : Sorted3 v.abs)
+    (hab : a ≠ b) :
+    vFind ((vRemove c v k a relid).getDb k') b = vFind (v.getDb k') b ∧
+    ((((vRemove c v k a relid).getDb k').toList.drop (vFind (v.getDb k') b).1).take
+        ((vFind (v.getDb k') b).2 - (vFind (v.getDb k') b).1)) =
+      (((v.getDb k').toList.drop (vFind (v.getDb k') b).1).take ((vFind (v.getDb k') b).2 - (vFind (v.getDb k') b).1)) := by
+  have hf := vRemove_other_find c v k k' a b relid hs hab
+  refine ⟨hf, ?_⟩
+  have hl : ((vRemove c v k a relid).getDb k').toList = (dbRemove c v.abs k a relid).getDb k' := by
+    rw [← abs_getDb, vRemove_abs c v k a relid hs]
+  have hs' : SortedById ((vRemove c v k a relid).getDb k').toList := by
+    rw [hl]; exact dbRemove_sorted3 c v.abs k a relid hs k'
+  have hs0 : SortedById (v.getDb k').toList := by rw [← abs_getDb]; exact hs k'
+  have e1 := (find_is_equal_range_all_ids _ b hs').1
+  rw [hf] at e1
+  rw [e1, (find_is_equal_range_all_ids _ b hs0).1, hl, ← abs_getDb]
+  exact dbRemove_filter_ne c v.abs k k' a b relid (hs k) hab
+
+/-- the whole second pass keeps every id findable: no operation of a run (objects arriving, completions, releases,
+    lookups, flushes) changes the (member id, relation position) skeleton of a members database — so for every id the
+    index range of `find` after any history is the one `prepare_for_lookup()` established -/
+theorem find_range_fixed_by_first_pass (c : Cfg) (rels : List Rel) (ops : List Op) (k : Kind) (b : Int) :
+    vFind ((vRunOps c (vFirstPass c rels) ops).getDb k) b = vFind ((vFirstPass c rels).getDb k) b := by
+  have h0 : Sorted3 (vFirstPass c rels).abs := by rw [vFirstPass_abs]; exact firstPass_sorted3 c rels
+  have habs := vRunOps_abs c ops _ h0
+  have hsk := runOps_skel c ops (vFirstPass c rels).abs k
+  rw [← habs, abs_getDb, abs_getDb] at hsk
+  have hs0 : SortedById ((vFirstPass c rels).getDb k).toList := by rw [← abs_getDb]; exact h0 k
+  have hs' : SortedById ((vRunOps c (vFirstPass c rels) ops).getDb k).toList := sortedById_of_skel hsk hs0
+  obtain ⟨h1, h2⟩ := vFind_spec _ b hs'
+  obtain ⟨g1, g2⟩ := vFind_spec _ b hs0
+  have hp := filter_mid_length_of_skel hsk (fun m => decide (m < b))
+  have hm := filter_mid_length_of_skel hsk (fun m => m == b)
+  rw [splitRange_sorted _ b hs'] at h1 h2
+  rw [splitRange_sorted _ b hs0] at g1 g2
+  exact Prod.ext (by rw [h1, g1]; exact hp) (by rw [h2, g2]; simp only []; rw [hp, hm])
+
+/-- non-vacuity with ids 5 and 5 + 2^32 (equal in their low 32 bits): two relations, one way each -/
+def aliasRels : List Rel := [⟨1, 0, [⟨.way, 5⟩]⟩, ⟨2, 0, [⟨.way, 5 + 2 ^ 32⟩]⟩]
+def aliasOps : List Op := [.obj ⟨.way, 5, 7⟩, .obj ⟨.way, 5 + 2 ^ 32, 9⟩]
+
+/-- the hypothesis of the two theorems holds after the first pass … -/
+example : Sorted3 (firstPass (cfgAll true) aliasRels) := firstPass_sorted3 _ _
+example : Sorted3 (vFirstPass (cfgAll true) aliasRels).abs := by rw [vFirstPass_abs]; exact firstPass_sorted3 _ _
+
+/-- … way 5 is released when it arrives (relation 1 is complete), way 5 + 2^32 is still tracked: `find` returns its one
+    entry, untouched … -/
+example : (splitRange ((dbRemove (cfgAll true) (firstPass (cfgAll true) aliasRels) .way 5 1).getDb .way) (5 + 2 ^ 32)).2.1 =
+    [⟨5 + 2 ^ 32, some 0, 1, 0⟩] := by decide +kernel
+
+/-- … and the run completes BOTH relations, each when its way arrives, each with its member retrievable -/
+example : (run (cfgAll true) aliasRels aliasOps).events =
+    [.complete 0 1 0 [(⟨.way, 5⟩, .found ⟨.way, 5, 7⟩)],
+     .complete 1 2 0 [(⟨.way, 5 + 2 ^ 32⟩, .found ⟨.way, 5 + 2 ^ 32, 9⟩)]] ∧
+    (run (cfgAll true) aliasRels aliasOps).incomplete = [] := by decide +kernel
+
+/-! ### The state of the C++ classes is the state of the model (census of ALL data members) -/
+
+/-- every data member of the relation manager classes with its C++ type and the component of the model it is
+    (`VState` / `Elem` / `RelEntry`, Model/RelMgrVec.lean); `—` = no state of its own -/
+def modelledState : List (String × String × String × String) := [
+  ("SecondPassHandler", "m_manager", "TManager &", "— (forwarding only: vRunOps dispatches on the op)"),
+  ("RelationsDatabase", "m_stash", "osmium::ItemStash &", "VState.stash"),
+  ("RelationsDatabase", "m_elements", "std::vector<element>", "VState.rdb"),
+  ("RelationsDatabase::element", "handle", "osmium::ItemStash::handle_type", "RelEntry.h"),
+  ("RelationsDatabase::element", "members", "std::size_t", "RelEntry.missing"),
+  ("RelationHandle", "m_relation_database", "osmium::relations::RelationsDatabase *", "— (the one VState.rdb)"),
+  ("RelationHandle", "m_pos", "std::size_t", "pos : Nat"),
+  ("MembersDatabaseCommon", "m_elements", "std::vector<element>", "VState.ndb / wdb / rmdb"),
+  ("MembersDatabaseCommon", "m_stash", "osmium::ItemStash &", "VState.stash"),
+  ("MembersDatabaseCommon", "m_relations_db", "osmium::relations::RelationsDatabase &", "VState.rdb"),
+  ("MembersDatabaseCommon", "m_init_phase", "bool", "— (assert only; vRun = vFirstPass then vRunOps)"),
+  ("MembersDatabaseCommon::element", "member_id", "osmium::object_id_type", "Elem.mid"),
+  ("MembersDatabaseCommon::element", "member_num", "std::size_t", "Elem.num"),
+  ("MembersDatabaseCommon::element", "relation_pos", "std::size_t", "Elem.rpos"),
+  ("MembersDatabaseCommon::element", "object_handle", "osmium::ItemStash::handle_type", "Elem.h"),
+  ("MembersDatabaseCommon::counts", "tracked", "std::size_t", "dbCounts.1"),
+  ("MembersDatabaseCommon::counts", "available", "std::size_t", "dbCounts.2.1"),
+  ("MembersDatabaseCommon::counts", "removed", "std::size_t", "dbCounts.2.2"),
+  ("RelationsManagerBase", "m_stash", "osmium::ItemStash", "VState.stash"),
+  ("RelationsManagerBase", "m_relations_db", "relations::RelationsDatabase", "VState.rdb"),
+  ("RelationsManagerBase", "m_member_nodes_db", "relations::MembersDatabase<osmium::Node>", "VState.ndb"),
+  ("RelationsManagerBase", "m_member_ways_db", "relations::MembersDatabase<osmium::Way>", "VState.wdb"),
+  ("RelationsManagerBase", "m_member_relations_db", "relations::MembersDatabase<osmium::Relation>", "VState.rmdb"),
+  ("RelationsManagerBase", "m_output", "osmium::memory::CallbackBuffer", "VState.outBytes / flushes / flushedBytes"),
+  ("RelationsManager", "m_check_order_handler", "osmium::relations::RelationsManager::check_order_handler", "VState.chk"),
+  ("RelationsManager", "m_handler_pass2", "SecondPassHandler<RelationsManager<TManager, TNodes, TWays, TRelations, TCheckOrder>>", "— (forwarding only)")
+]
+
+/-- every member function that touches a data member, with the members it reads or writes -/
+def modelledUses : List (String × String × List String) := [
+  ("SecondPassHandler", "SecondPassHandler", ["m_manager"]),
+  ("SecondPassHandler", "node", ["m_manager"]),
+  ("SecondPassHandler", "way", ["m_manager"]),
+  ("SecondPassHandler", "relation", ["m_manager"]),
+  ("SecondPassHandler", "flush", ["m_manager"]),
+  ("RelationsDatabase", "get_relation", ["handle", "m_elements", "m_stash"]),
+  ("RelationsDatabase", "members", ["m_elements", "members"]),
+  ("RelationsDatabase", "remove", ["handle", "m_elements", "m_stash"]),
+  ("RelationsDatabase", "RelationsDatabase", ["m_elements", "m_stash"]),
+  ("RelationsDatabase", "used_memory", ["m_elements"]),
+  ("RelationsDatabase", "size", ["m_elements"]),
+  ("RelationsDatabase", "add", ["m_elements", "m_stash"]),
+  ("RelationsDatabase", "operator[]", ["m_elements"]),
+  ("RelationsDatabase", "count_relations", ["handle", "m_elements"]),
+  ("RelationsDatabase", "for_each_relation", ["handle", "m_elements"]),
+  ("RelationHandle", "RelationHandle", ["m_pos", "m_relation_database"]),
+  ("RelationHandle", "relation_database", ["m_relation_database"]),
+  ("RelationHandle", "pos", ["m_pos"]),
+  ("RelationHandle", "operator*", ["m_pos", "m_relation_database"]),
+  ("RelationHandle", "operator->", ["m_pos", "m_relation_database"]),
+  ("RelationHandle", "remove", ["m_relation_database"]),
+  ("RelationHandle", "set_members", ["m_pos", "m_relation_database"]),
+  ("RelationHandle", "increment_members", ["m_pos", "m_relation_database"]),
+  ("RelationHandle", "decrement_members", ["m_pos", "m_relation_database"]),
+  ("RelationHandle", "has_all_members", ["m_pos", "m_relation_database"]),
+  ("MembersDatabaseCommon", "find", ["m_elements"]),
+  ("MembersDatabaseCommon", "add_object", ["m_stash", "object_handle"]),
+  ("MembersDatabaseCommon", "MembersDatabaseCommon", ["m_elements", "m_init_phase", "m_relations_db", "m_stash"]),
+  ("MembersDatabaseCommon", "used_memory", ["m_elements"]),
+  ("MembersDatabaseCommon", "size", ["m_elements"]),
+  ("MembersDatabaseCommon", "count", ["available", "m_elements", "object_handle", "removed", "tracked"]),
+  ("MembersDatabaseCommon", "track", ["m_elements", "m_init_phase", "m_relations_db"]),
+  ("MembersDatabaseCommon", "prepare_for_lookup", ["m_elements", "m_init_phase"]),
+  ("MembersDatabaseCommon", "remove", ["m_init_phase", "m_relations_db", "m_stash", "object_handle", "relation_pos"]),
+  ("MembersDatabaseCommon", "get_object", ["m_init_phase", "m_stash", "object_handle"]),
+  ("MembersDatabaseCommon::element", "element", ["member_id", "member_num", "object_handle", "relation_pos"]),
+  ("MembersDatabaseCommon::element", "is_removed", ["member_num"]),
+  ("MembersDatabaseCommon::element", "remove", ["member_num"]),
+  ("MembersDatabaseCommon::element", "operator<", ["member_id", "member_num", "relation_pos"]),
+  ("MembersDatabaseCommon::compare_member_id", "operator()", ["member_id"]),
+  ("MembersDatabase", "add", ["m_init_phase", "m_relations_db", "member_id", "member_num", "members", "relation_pos"]),
+  ("MembersDatabase", "get", ["m_init_phase"]),
+  ("RelationsManagerBase", "RelationsManagerBase", ["m_member_nodes_db", "m_member_relations_db", "m_member_ways_db", "m_output", "m_relations_db", "m_stash"]),
+  ("RelationsManagerBase", "relations_database", ["m_relations_db"]),
+  ("RelationsManagerBase", "member_nodes_database", ["m_member_nodes_db"]),
+  ("RelationsManagerBase", "member_ways_database", ["m_member_ways_db"]),
+  ("RelationsManagerBase", "member_relations_database", ["m_member_relations_db"]),
+  ("RelationsManagerBase", "member_database", ["m_member_nodes_db", "m_member_relations_db", "m_member_ways_db"]),
+  ("RelationsManagerBase", "prepare_for_lookup", ["m_member_nodes_db", "m_member_relations_db", "m_member_ways_db"]),
+  ("RelationsManagerBase", "used_memory", ["m_member_nodes_db", "m_member_relations_db", "m_member_ways_db", "m_relations_db", "m_stash"]),
+  ("RelationsManagerBase", "buffer", ["m_output"]),
+  ("RelationsManagerBase", "set_callback", ["m_output"]),
+  ("RelationsManagerBase", "flush_output", ["m_output"]),
+  ("RelationsManagerBase", "possibly_flush", ["m_output"]),
+  ("RelationsManagerBase", "read", ["m_output"]),
+  ("RelationsManager", "RelationsManager", ["m_check_order_handler", "m_handler_pass2"]),
+  ("RelationsManager", "handler", ["m_handler_pass2"]),
+  ("RelationsManager", "relation", ["members"]),
+  ("RelationsManager", "handle_node", ["m_check_order_handler"]),
+  ("RelationsManager", "handle_way", ["m_check_order_handler"]),
+  ("RelationsManager", "handle_relation", ["m_check_order_handler"])
+]
+
+/-- Source census, part 2 (Generated/C11Layout.lean `fields` / `fieldUses`, read off clang's typed AST of the CURRENT
+    headers on every run): the data members of `MembersDatabaseCommon` (+ `element`, `counts`), `MembersDatabase`,
+    `RelationsDatabase` (+ `element`), `RelationHandle`, `RelationsManagerBase`, `RelationsManager` and `SecondPassHandler`
+    are EXACTLY the ones the model has a component for (`modelledState`), with the same types, and every member function
+    touches exactly the members the transcription knows of (`modelledUses`).  A new data member (a cache, a filter, a
+    counter, a flag), a member of another type, or a new read / write of an existing member in any function breaks
+    this theorem by name: the model, `removal_of_other_id_irrelevant` and the table must then be revisited together. -/
+theorem members_database_state_is_modelled :
+    Generated.C11Layout.fields.map (fun f => (f.cls, f.name, f.type)) = modelledState.map (fun m => (m.1, m.2.1, m.2.2.1)) ∧
+    Generated.C11Layout.fieldUses.map (fun u => (u.cls, u.fn, u.touches)) = modelledUses := by
+  decide +kernel
+
+/-- the census is not empty: the element vector, the stash reference and the four fields of an element are there -/
+example : 26 ≤ Generated.C11Layout.fields.length ∧
+    (Generated.C11Layout.fields.filter (fun f => f.cls == "MembersDatabaseCommon::element")).length = 4 := by decide +kernel
+
 /-! ### source ties (tools/cxx2lean.py): `relations/members_database.hpp` `element` translated from the source -/
 section SrcTies
 open Osmium.Generated Osmium.CxxSem
